@@ -173,6 +173,24 @@ def main():
                 os.remove(os.path.join(REPLAY_OUT, n))
     kw = dict(only=(BASE_VC + only.split(',')) if only else None,
               specs=(BASE_SPEC + specs.split(',')) if specs else None)
+    # configurations (configs.json): the default run excludes sidecars owned by another configuration; VERIF_CONFIG=<name>
+    # selects a non-default configuration (own + base sidecars, extra cfg flags) — used by the sub-runs below
+    try:
+        configs = {k: v for k, v in json.load(open(os.path.join(VERIF, 'configs.json'))).items() if not k.startswith('_')}
+    except Exception:
+        configs = {}
+    cfgname = os.environ.get('VERIF_CONFIG', 'default')
+    all_vc = sorted(n[:-3] for n in os.listdir(contracts_dir) if n.endswith('.vc'))
+    owned = set(o for c in configs.values() for o in c.get('own', []))
+    if cfgname == 'default':
+        if kw['only'] is None and owned & set(all_vc):
+            kw['only'] = [n for n in all_vc if n not in owned]
+        engine.ACTIVE_CFGS = None
+    else:
+        c = configs[cfgname]
+        kw['only'] = [n for n in c['base'] + c['own'] if n in all_vc]
+        kw['specs'] = [m for m in c['specs'] if os.path.exists(os.path.join(spec_dir, m + '.rs'))]
+        engine.ACTIVE_CFGS = engine.CFGS + c.get('cfgs_extra', [])
     annotate.DEGRADE = {}
     rc = 2
     for attempt in range(4):
@@ -190,7 +208,72 @@ def main():
             break
         finally:
             shutil.rmtree(scratch, ignore_errors=True)
+    if cfgname == 'default':
+        rc = run_extra_configs(prop, tier, configs, contracts_dir, evidence_path, rc)
     sys.exit(rc)
+
+
+def run_extra_configs(prop, tier, configs, contracts_dir, evidence_path, rc):
+    """Units of this property that live in a non-default configuration are decided by a sub-run of this script; its
+    VIOLATION / UNDECIDED lines are passed through, its summary is merged into the evidence file, and the exit code is the
+    worst of the runs (violation > undecided > held)."""
+    import tempfile
+    extra = []
+    for name, c in configs.items():
+        own = [o for o in c.get('own', []) if os.path.exists(os.path.join(contracts_dir, o + '.vc'))]
+        if not own:
+            continue
+        has = False
+        for o in own:
+            t = open(os.path.join(contracts_dir, o + '.vc')).read()
+            if re.search(r'^#@ fn .*props=[^\n]*\b%s\b' % prop, t, re.M):
+                has = True
+        if not has:
+            continue
+        tmp = tempfile.mkdtemp(prefix='dryoc_cfg.', dir=os.environ.get('VERIF_SCRATCH', '/var/tmp'))
+        try:
+            env = dict(os.environ, VERIF_CONFIG=name, VERIF_EVIDENCE_DIR=tmp, VERIF_NO_SELFTEST='1')
+            r = subprocess.run([sys.executable, os.path.abspath(__file__), prop, '--tier', tier], env=env, cwd=VERIF,
+                               stdout=subprocess.PIPE, stderr=subprocess.PIPE, text=True)
+            for line in r.stdout.split('\n'):
+                if line.startswith('VIOLATION'):
+                    # keep the replay file: move it next to the others
+                    m = re.search(r'replay=(\S+)', line)
+                    if m and os.path.exists(m.group(1)):
+                        dst = os.path.join(REPLAY_OUT, os.path.basename(m.group(1)))
+                        os.makedirs(REPLAY_OUT, exist_ok=True)
+                        shutil.copy(m.group(1), dst)
+                        line = line.replace(m.group(1), dst)
+                    print(line)
+                elif line.startswith(('UNDECIDED', 'KNOWN-FINDING')):
+                    print(line + ' [configuration %s]' % name)
+            sys.stderr.write(r.stderr[-4000:])
+            sub = {}
+            try:
+                sub = json.load(open(os.path.join(tmp, prop + '.json')))
+            except Exception:
+                pass
+            extra.append({'configuration': name, 'cfg_flags': c.get('cfgs_extra'), 'exit': r.returncode,
+                          'coverage': {k: sub.get('coverage', {}).get(k) for k in
+                                       ('obligations', 'discharged', 'functions_under_contract', 'functions_discharged',
+                                        'functions_failed', 'functions_undecided', 'functions_assumed', 'units', 'checker_cmd',
+                                        'status')}})
+            order = {0: 0, 2: 1, 1: 2}
+            if order.get(r.returncode, 1) > order.get(rc, 1):
+                rc = r.returncode if r.returncode in (0, 1, 2) else 2
+        finally:
+            shutil.rmtree(tmp, ignore_errors=True)
+    if extra:
+        try:
+            ev = json.load(open(evidence_path))
+            ev['coverage']['extra_configurations'] = extra
+            for e in extra:
+                ev['coverage']['obligations'] += e['coverage'].get('obligations') or 0
+                ev['coverage']['discharged'] += e['coverage'].get('discharged') or 0
+            write_json(evidence_path, ev)
+        except Exception:
+            pass
+    return rc
 
 
 def modules_for(prop, index, spec_dir):
